@@ -1,14 +1,689 @@
 // Package instrument rewrites ollama source files so that every concurrency,
-// time and file-system operation goes through the controlled runtime (mcrt).
+// time and (optionally) file-system operation goes through the controlled
+// runtime (mcrt). It works on /repo's *current* files at check time and writes
+// rewritten copies for `go build -overlay`; /repo is never modified.
+//
+// Two mechanisms:
+//   - import substitution: "sync", "sync/atomic", "time", "context",
+//     "golang.org/x/sync/errgroup", ... are replaced by shim packages with the
+//     same package name that export the controlled versions (and aliases for
+//     everything that needs no control). A member the shim does not know makes
+//     the build fail: fail closed.
+//   - syntax rewriting (needs go/types only to classify `range`): go statements,
+//     channel send / receive / close / range, select.
 package instrument
 
-import "fmt"
+import (
+	"bytes"
+	"encoding/json"
+	"fmt"
+	"go/ast"
+	"go/format"
+	"go/importer"
+	"go/parser"
+	"go/token"
+	"go/types"
+	"io"
+	"os"
+	"os/exec"
+	"path/filepath"
+	"reflect"
+	"sort"
+	"strconv"
+	"strings"
+)
+
+const (
+	mcrtPath   = "github.com/ollama/ollama/zzverif/mcrt"
+	shimPrefix = "github.com/ollama/ollama/zzverif/shim/"
+)
 
 type Options struct {
-	// Consts replaces the value of package-level constants: "pkgdir.Name" -> Go expression.
+	// Consts replaces the value of package-level constants/vars: "Name" -> Go expression (applies to every instrumented package).
 	Consts map[string]string `json:"consts"`
+	// Shims lists the std import paths to substitute (default: sync, sync/atomic, time, context, errgroup, semaphore, math/rand/v2).
+	Shims []string `json:"shims"`
+	// FS additionally substitutes "os" and "path/filepath" (mcos).
+	FS bool `json:"fs"`
+	// MapOrder rewrites `range` over maps to a deterministic (sorted) order.
+	NoMapOrder bool `json:"no_map_order"`
+	// Acc lists designated shared locations "TypeName.field" whose accesses are reported to the race detector.
+	Acc []string `json:"acc"`
 }
 
+var defaultShims = map[string]string{
+	"sync":                            shimPrefix + "sync",
+	"sync/atomic":                     shimPrefix + "atomic",
+	"time":                            shimPrefix + "time",
+	"context":                         shimPrefix + "context",
+	"golang.org/x/sync/errgroup":      shimPrefix + "errgroup",
+	"golang.org/x/sync/semaphore":     shimPrefix + "semaphore",
+	"math/rand/v2":                    shimPrefix + "randv2",
+}
+
+var fsShims = map[string]string{
+	"os":            shimPrefix + "os",
+	"path/filepath": shimPrefix + "filepath",
+}
+
+type listPkg struct {
+	Dir        string
+	ImportPath string
+	Export     string
+	GoFiles    []string
+	CgoFiles   []string
+}
+
+// Package instruments the files of one package and returns original path -> generated path.
 func Package(repoDir, pkgDir string, files []string, outDir string, opts Options, env []string) (map[string]string, error) {
-	return nil, fmt.Errorf("not implemented")
+	// 1. which files make up the package on this platform, and export data of its dependencies
+	cmd := exec.Command("go", "list", "-export", "-deps", "-json=Dir,ImportPath,Export,GoFiles,CgoFiles", "./"+pkgDir)
+	cmd.Dir = repoDir
+	cmd.Env = env
+	var stderr bytes.Buffer
+	cmd.Stderr = &stderr
+	out, err := cmd.Output()
+	if err != nil {
+		return nil, fmt.Errorf("go list: %v\n%s", err, stderr.String())
+	}
+	exports := map[string]string{}
+	var self *listPkg
+	dec := json.NewDecoder(bytes.NewReader(out))
+	absDir := filepath.Join(repoDir, pkgDir)
+	for {
+		var p listPkg
+		if err := dec.Decode(&p); err == io.EOF {
+			break
+		} else if err != nil {
+			return nil, err
+		}
+		if p.Export != "" {
+			exports[p.ImportPath] = p.Export
+		}
+		if p.Dir == absDir {
+			pp := p
+			self = &pp
+		}
+	}
+	if self == nil {
+		return nil, fmt.Errorf("package %s not found by go list", pkgDir)
+	}
+	want := map[string]bool{}
+	all := len(files) == 1 && files[0] == "*"
+	for _, f := range files {
+		want[f] = true
+	}
+	// 2. parse and type-check the whole package
+	fset := token.NewFileSet()
+	var astFiles []*ast.File
+	var names []string
+	for _, f := range append(append([]string{}, self.GoFiles...), self.CgoFiles...) {
+		af, err := parser.ParseFile(fset, filepath.Join(absDir, f), nil, parser.ParseComments|parser.SkipObjectResolution)
+		if err != nil {
+			return nil, err
+		}
+		astFiles = append(astFiles, af)
+		names = append(names, f)
+	}
+	lookup := func(path string) (io.ReadCloser, error) {
+		e, ok := exports[path]
+		if !ok {
+			return nil, fmt.Errorf("no export data for %s", path)
+		}
+		return os.Open(e)
+	}
+	info := &types.Info{Types: map[ast.Expr]types.TypeAndValue{}, Uses: map[*ast.Ident]types.Object{}, Defs: map[*ast.Ident]types.Object{}, Selections: map[*ast.SelectorExpr]*types.Selection{}}
+	conf := types.Config{Importer: importer.ForCompiler(fset, "gc", lookup), FakeImportC: true, Error: func(error) {}}
+	conf.Check(self.ImportPath, fset, astFiles, info) // errors tolerated (cgo); missing types make the rewriter refuse below
+
+	res := map[string]string{}
+	for i, af := range astFiles {
+		if !all && !want[names[i]] {
+			continue
+		}
+		if len(self.CgoFiles) > 0 && contains(self.CgoFiles, names[i]) {
+			continue
+		}
+		rw := &rewriter{fset: fset, info: info, opts: opts, file: names[i], pkgDir: pkgDir}
+		if err := rw.file_(af); err != nil {
+			return nil, fmt.Errorf("%s/%s: %v", pkgDir, names[i], err)
+		}
+		var buf bytes.Buffer
+		if err := format.Node(&buf, fset, af); err != nil {
+			return nil, fmt.Errorf("%s/%s: print: %v", pkgDir, names[i], err)
+		}
+		outp := filepath.Join(outDir, names[i])
+		if err := os.WriteFile(outp, buf.Bytes(), 0o644); err != nil {
+			return nil, err
+		}
+		res[filepath.Join(absDir, names[i])] = outp
+	}
+	for f := range want {
+		if f != "*" && !contains(names, f) {
+			return nil, fmt.Errorf("%s/%s: listed for instrumentation but not part of the package", pkgDir, f)
+		}
+	}
+	return res, nil
+}
+
+func contains(l []string, s string) bool {
+	for _, x := range l {
+		if x == s {
+			return true
+		}
+	}
+	return false
+}
+
+type rewriter struct {
+	fset    *token.FileSet
+	info    *types.Info
+	opts    Options
+	file    string
+	pkgDir  string
+	tmp     int
+	usedMC  bool
+	err     error
+	accSet  map[string]bool
+}
+
+func (r *rewriter) site(p token.Pos) string {
+	pos := r.fset.Position(p)
+	return fmt.Sprintf("%s/%s:%d", r.pkgDir, r.file, pos.Line)
+}
+
+func (r *rewriter) fail(p token.Pos, f string, a ...any) {
+	if r.err == nil {
+		r.err = fmt.Errorf("%s: %s", r.site(p), fmt.Sprintf(f, a...))
+	}
+}
+
+func (r *rewriter) name(prefix string) *ast.Ident {
+	r.tmp++
+	return ast.NewIdent(fmt.Sprintf("_zz%s%d", prefix, r.tmp))
+}
+
+func mc(name string) ast.Expr {
+	return &ast.SelectorExpr{X: ast.NewIdent("zzmcrt"), Sel: ast.NewIdent(name)}
+}
+
+func call(fun ast.Expr, args ...ast.Expr) *ast.CallExpr { return &ast.CallExpr{Fun: fun, Args: args} }
+
+func strLit(s string) ast.Expr { return &ast.BasicLit{Kind: token.STRING, Value: strconv.Quote(s)} }
+
+func define(lhs ast.Expr, rhs ast.Expr) ast.Stmt {
+	return &ast.AssignStmt{Lhs: []ast.Expr{lhs}, Tok: token.DEFINE, Rhs: []ast.Expr{rhs}}
+}
+
+func assign(lhs ast.Expr, rhs ast.Expr) ast.Stmt {
+	return &ast.AssignStmt{Lhs: []ast.Expr{lhs}, Tok: token.ASSIGN, Rhs: []ast.Expr{rhs}}
+}
+
+func use(id *ast.Ident) ast.Stmt { return assign(ast.NewIdent("_"), id) }
+
+func (r *rewriter) file_(f *ast.File) error {
+	shims := map[string]string{}
+	if len(r.opts.Shims) == 0 {
+		for k, v := range defaultShims {
+			shims[k] = v
+		}
+	} else {
+		for _, s := range r.opts.Shims {
+			if v, ok := defaultShims[s]; ok {
+				shims[s] = v
+			} else if v, ok := fsShims[s]; ok {
+				shims[s] = v
+			} else {
+				return fmt.Errorf("unknown shim %q", s)
+			}
+		}
+	}
+	if r.opts.FS {
+		for k, v := range fsShims {
+			shims[k] = v
+		}
+	}
+	r.accSet = map[string]bool{}
+	for _, a := range r.opts.Acc {
+		r.accSet[a] = true
+	}
+	// constants
+	if len(r.opts.Consts) > 0 {
+		for _, d := range f.Decls {
+			gd, ok := d.(*ast.GenDecl)
+			if !ok || (gd.Tok != token.CONST && gd.Tok != token.VAR) {
+				continue
+			}
+			for _, s := range gd.Specs {
+				vs := s.(*ast.ValueSpec)
+				for i, n := range vs.Names {
+					if repl, ok := r.opts.Consts[n.Name]; ok && i < len(vs.Values) {
+						e, err := parser.ParseExpr(repl)
+						if err != nil {
+							return fmt.Errorf("const %s: %v", n.Name, err)
+						}
+						vs.Values[i] = e
+					}
+				}
+			}
+		}
+	}
+	// body rewriting
+	for _, d := range f.Decls {
+		r.node(d)
+	}
+	if r.err != nil {
+		return r.err
+	}
+	// imports
+	for _, im := range f.Imports {
+		p, _ := strconv.Unquote(im.Path.Value)
+		if np, ok := shims[p]; ok {
+			if im.Name == nil {
+				base := p[strings.LastIndexByte(p, '/')+1:]
+				if base == "v2" {
+					base = "rand"
+				}
+				im.Name = ast.NewIdent(base)
+			}
+			im.Path.Value = strconv.Quote(np)
+		}
+	}
+	if r.usedMC {
+		spec := &ast.ImportSpec{Name: ast.NewIdent("zzmcrt"), Path: &ast.BasicLit{Kind: token.STRING, Value: strconv.Quote(mcrtPath)}}
+		gd := &ast.GenDecl{Tok: token.IMPORT, Specs: []ast.Spec{spec}}
+		f.Decls = append([]ast.Decl{gd}, f.Decls...)
+		f.Imports = append(f.Imports, spec)
+	}
+	// comments would be misplaced by the rewriting; drop all but build constraints / package doc
+	var keep []*ast.CommentGroup
+	for _, cg := range f.Comments {
+		if cg.End() < f.Package {
+			keep = append(keep, cg)
+		}
+	}
+	f.Comments = keep
+	return nil
+}
+
+// node rewrites n in place (children first) and returns nothing; statement and
+// expression replacement is done through the reflective walker below.
+func (r *rewriter) node(n ast.Node) {
+	r.walk(reflect.ValueOf(n))
+}
+
+var (
+	exprType = reflect.TypeOf((*ast.Expr)(nil)).Elem()
+	stmtType = reflect.TypeOf((*ast.Stmt)(nil)).Elem()
+	nodeType = reflect.TypeOf((*ast.Node)(nil)).Elem()
+)
+
+func (r *rewriter) walk(v reflect.Value) {
+	switch v.Kind() {
+	case reflect.Ptr, reflect.Interface:
+		if v.IsNil() {
+			return
+		}
+		if v.Kind() == reflect.Interface {
+			r.walk(v.Elem())
+			return
+		}
+		if _, ok := v.Interface().(ast.Node); !ok {
+			return
+		}
+		// select: handle before children so that comm clauses are not rewritten generically
+		if sel, ok := v.Interface().(*ast.SelectStmt); ok {
+			_ = sel
+		}
+		r.walk(v.Elem())
+	case reflect.Struct:
+		for i := 0; i < v.NumField(); i++ {
+			f := v.Field(i)
+			ft := f.Type()
+			switch {
+			case ft == exprType:
+				if f.IsNil() {
+					continue
+				}
+				r.walk(f)
+				f.Set(reflect.ValueOf(r.expr(f.Interface().(ast.Expr))))
+			case ft == stmtType:
+				if f.IsNil() {
+					continue
+				}
+				ns := r.stmt(f.Interface().(ast.Stmt))
+				f.Set(reflect.ValueOf(ns))
+			case ft.Kind() == reflect.Slice && ft.Elem() == stmtType:
+				for j := 0; j < f.Len(); j++ {
+					e := f.Index(j)
+					if e.IsNil() {
+						continue
+					}
+					e.Set(reflect.ValueOf(r.stmt(e.Interface().(ast.Stmt))))
+				}
+			case ft.Kind() == reflect.Slice && ft.Elem() == exprType:
+				for j := 0; j < f.Len(); j++ {
+					e := f.Index(j)
+					if e.IsNil() {
+						continue
+					}
+					r.walk(e)
+					e.Set(reflect.ValueOf(r.expr(e.Interface().(ast.Expr))))
+				}
+			case ft.Kind() == reflect.Slice && ft.Elem().Implements(nodeType):
+				for j := 0; j < f.Len(); j++ {
+					r.walk(f.Index(j))
+				}
+			case ft.Kind() == reflect.Slice && ft.Elem().Kind() == reflect.Interface:
+				for j := 0; j < f.Len(); j++ {
+					r.walk(f.Index(j))
+				}
+			case ft.Kind() == reflect.Ptr && ft.Implements(nodeType):
+				if ft == reflect.TypeOf((*ast.Object)(nil)) || ft == reflect.TypeOf((*ast.Scope)(nil)) {
+					continue
+				}
+				if !f.IsNil() {
+					if bs, ok := f.Interface().(*ast.BlockStmt); ok {
+						r.block(bs)
+					} else {
+						r.walk(f)
+					}
+				}
+			}
+		}
+	}
+}
+
+func (r *rewriter) block(b *ast.BlockStmt) {
+	for i, s := range b.List {
+		b.List[i] = r.stmt(s)
+	}
+}
+
+// expr is called after the children of e were rewritten.
+func (r *rewriter) expr(e ast.Expr) ast.Expr {
+	switch x := e.(type) {
+	case *ast.UnaryExpr:
+		if x.Op == token.ARROW {
+			r.usedMC = true
+			return call(mc("Recv"), x.X)
+		}
+	case *ast.CallExpr:
+		if id, ok := x.Fun.(*ast.Ident); ok && id.Name == "close" && len(x.Args) == 1 {
+			if obj := r.info.Uses[id]; obj == nil || obj.Parent() == types.Universe {
+				r.usedMC = true
+				return call(mc("Close"), x.Args[0])
+			}
+		}
+	}
+	return e
+}
+
+func isRecv(e ast.Expr) (*ast.UnaryExpr, bool) {
+	for {
+		p, ok := e.(*ast.ParenExpr)
+		if !ok {
+			break
+		}
+		e = p.X
+	}
+	u, ok := e.(*ast.UnaryExpr)
+	return u, ok && u.Op == token.ARROW
+}
+
+// stmt rewrites one statement (recursively) and returns its replacement.
+func (r *rewriter) stmt(s ast.Stmt) ast.Stmt {
+	switch x := s.(type) {
+	case *ast.SelectStmt:
+		return r.selectStmt(x, nil)
+	case *ast.LabeledStmt:
+		if sel, ok := x.Stmt.(*ast.SelectStmt); ok {
+			return r.selectStmt(sel, x.Label)
+		}
+		x.Stmt = r.stmt(x.Stmt)
+		return x
+	case *ast.AssignStmt:
+		// v, ok := <-ch
+		if len(x.Lhs) == 2 && len(x.Rhs) == 1 {
+			if u, ok := isRecv(x.Rhs[0]); ok {
+				r.walk(reflect.ValueOf(u.X))
+				u.X = r.exprTop(u.X)
+				for i := range x.Lhs {
+					r.walk(reflect.ValueOf(x.Lhs[i]))
+				}
+				r.usedMC = true
+				x.Rhs[0] = call(mc("Recv2"), u.X)
+				return x
+			}
+		}
+	case *ast.SendStmt:
+		r.walk(reflect.ValueOf(x).Elem())
+		r.usedMC = true
+		c, v := r.name("c"), r.name("s")
+		return &ast.BlockStmt{List: []ast.Stmt{
+			define(c, x.Chan),
+			define(v, call(mc("ZeroOfS"), c)),
+			assign(v, x.Value),
+			&ast.ExprStmt{X: call(mc("Send"), c, v)},
+		}}
+	case *ast.GoStmt:
+		return r.goStmt(x)
+	case *ast.DeferStmt:
+		r.walk(reflect.ValueOf(x))
+		if ne, ok := r.expr(x.Call).(*ast.CallExpr); ok {
+			x.Call = ne
+		}
+		return x
+	case *ast.RangeStmt:
+		return r.rangeStmt(x)
+	case *ast.DeclStmt:
+		// var v, ok = <-ch
+		if gd, ok := x.Decl.(*ast.GenDecl); ok && gd.Tok == token.VAR {
+			for _, sp := range gd.Specs {
+				vs := sp.(*ast.ValueSpec)
+				if len(vs.Names) == 2 && len(vs.Values) == 1 {
+					if u, ok := isRecv(vs.Values[0]); ok {
+						r.walk(reflect.ValueOf(u.X))
+						r.usedMC = true
+						vs.Values[0] = call(mc("Recv2"), r.exprTop(u.X))
+						return x
+					}
+				}
+			}
+		}
+	}
+	r.walk(reflect.ValueOf(s))
+	return s
+}
+
+// exprTop applies expr() to an expression whose children were already walked.
+func (r *rewriter) exprTop(e ast.Expr) ast.Expr { return r.expr(e) }
+
+func (r *rewriter) rewriteExpr(e ast.Expr) ast.Expr {
+	if e == nil {
+		return nil
+	}
+	r.walk(reflect.ValueOf(e))
+	return r.expr(e)
+}
+
+func (r *rewriter) goStmt(g *ast.GoStmt) ast.Stmt {
+	r.usedMC = true
+	c := g.Call
+	var pre []ast.Stmt
+	// evaluate arguments (and a non-literal function value) now, as `go` does
+	var args []ast.Expr
+	for _, a := range c.Args {
+		a = r.rewriteExpr(a)
+		t := r.name("a")
+		pre = append(pre, define(t, a))
+		args = append(args, t)
+	}
+	var fun ast.Expr
+	if fl, ok := c.Fun.(*ast.FuncLit); ok {
+		r.block(fl.Body)
+		fun = fl
+		if len(args) == 0 {
+			return &ast.ExprStmt{X: call(mc("Go"), strLit(r.site(g.Pos())), fl)}
+		}
+		fun = &ast.ParenExpr{X: fl}
+	} else {
+		f := r.rewriteExpr(c.Fun)
+		t := r.name("f")
+		pre = append(pre, define(t, f))
+		fun = t
+	}
+	inner := &ast.CallExpr{Fun: fun, Args: args, Ellipsis: c.Ellipsis}
+	body := &ast.FuncLit{Type: &ast.FuncType{Params: &ast.FieldList{}}, Body: &ast.BlockStmt{List: []ast.Stmt{&ast.ExprStmt{X: inner}}}}
+	pre = append(pre, &ast.ExprStmt{X: call(mc("Go"), strLit(r.site(g.Pos())), body)})
+	return &ast.BlockStmt{List: pre}
+}
+
+func (r *rewriter) rangeStmt(x *ast.RangeStmt) ast.Stmt {
+	tv, ok := r.info.Types[x.X]
+	x.X = r.rewriteExpr(x.X)
+	r.block(x.Body)
+	if !ok || tv.Type == nil {
+		r.fail(x.Pos(), "cannot classify range expression (no type information)")
+		return x
+	}
+	switch ut := tv.Type.Underlying().(type) {
+	case *types.Chan:
+		r.usedMC = true
+		okv := r.name("ok")
+		var lhs ast.Expr = ast.NewIdent("_")
+		tok := token.DEFINE
+		if x.Key != nil {
+			lhs = x.Key
+			tok = x.Tok
+		}
+		recv := &ast.AssignStmt{Lhs: []ast.Expr{lhs, okv}, Tok: tok, Rhs: []ast.Expr{call(mc("Recv2"), x.X)}}
+		var list []ast.Stmt
+		if tok == token.ASSIGN {
+			list = append(list, &ast.DeclStmt{Decl: &ast.GenDecl{Tok: token.VAR, Specs: []ast.Spec{&ast.ValueSpec{Names: []*ast.Ident{okv}, Type: ast.NewIdent("bool")}}}})
+		}
+		list = append(list, recv, &ast.IfStmt{Cond: &ast.UnaryExpr{Op: token.NOT, X: okv}, Body: &ast.BlockStmt{List: []ast.Stmt{&ast.BranchStmt{Tok: token.BREAK}}}})
+		list = append(list, x.Body.List...)
+		return &ast.ForStmt{Body: &ast.BlockStmt{List: list}}
+	case *types.Map:
+		_ = ut
+		if r.opts.NoMapOrder {
+			return x
+		}
+		r.usedMC = true
+		// for k, v := range m  =>  _m := m; for _, k := range MapKeys(_m) { v, _ok := _m[k]; if !_ok { continue }; body }
+		m := r.name("m")
+		okv := r.name("ok")
+		var key ast.Expr = r.name("k")
+		keyTok := token.DEFINE
+		if x.Key != nil {
+			if id, isId := x.Key.(*ast.Ident); !isId || id.Name != "_" {
+				key = x.Key
+				keyTok = x.Tok
+			}
+		}
+		var valLhs ast.Expr = ast.NewIdent("_")
+		if x.Value != nil {
+			valLhs = x.Value
+		}
+		var list []ast.Stmt
+		if x.Tok == token.ASSIGN && x.Value != nil {
+			list = append(list, &ast.DeclStmt{Decl: &ast.GenDecl{Tok: token.VAR, Specs: []ast.Spec{&ast.ValueSpec{Names: []*ast.Ident{okv}, Type: ast.NewIdent("bool")}}}})
+			list = append(list, &ast.AssignStmt{Lhs: []ast.Expr{valLhs, okv}, Tok: token.ASSIGN, Rhs: []ast.Expr{&ast.IndexExpr{X: m, Index: key}}})
+		} else {
+			list = append(list, &ast.AssignStmt{Lhs: []ast.Expr{valLhs, okv}, Tok: token.DEFINE, Rhs: []ast.Expr{&ast.IndexExpr{X: m, Index: key}}})
+		}
+		list = append(list, &ast.IfStmt{Cond: &ast.UnaryExpr{Op: token.NOT, X: okv}, Body: &ast.BlockStmt{List: []ast.Stmt{&ast.BranchStmt{Tok: token.CONTINUE}}}})
+		list = append(list, x.Body.List...)
+		loop := &ast.RangeStmt{Key: ast.NewIdent("_"), Value: key, Tok: keyTok, X: call(mc("MapKeys"), strLit(r.site(x.Pos())), m), Body: &ast.BlockStmt{List: list}}
+		if keyTok == token.ILLEGAL {
+			loop.Tok = token.DEFINE
+		}
+		return &ast.BlockStmt{List: []ast.Stmt{define(m, x.X), loop}}
+	}
+	return x
+}
+
+func (r *rewriter) selectStmt(sel *ast.SelectStmt, label *ast.Ident) ast.Stmt {
+	r.usedMC = true
+	var pre []ast.Stmt
+	var cases []ast.Expr
+	var clauses []ast.Stmt
+	for i, cl := range sel.Body.List {
+		cc := cl.(*ast.CommClause)
+		var head []ast.Stmt
+		switch comm := cc.Comm.(type) {
+		case nil:
+			cases = append(cases, call(mc("DefaultCase")))
+		case *ast.SendStmt:
+			c, v := r.name("c"), r.name("s")
+			pre = append(pre, define(c, r.rewriteExpr(comm.Chan)), define(v, call(mc("ZeroOfS"), c)), assign(v, r.rewriteExpr(comm.Value)))
+			cases = append(cases, call(mc("SendCase"), c, v))
+		case *ast.ExprStmt:
+			u, ok := isRecv(comm.X)
+			if !ok {
+				r.fail(comm.Pos(), "unsupported select case")
+				return sel
+			}
+			c := r.name("c")
+			pre = append(pre, define(c, r.rewriteExpr(u.X)))
+			cases = append(cases, call(mc("RecvCase"), c, ast.NewIdent("nil"), ast.NewIdent("nil")))
+		case *ast.AssignStmt:
+			u, ok := isRecv(comm.Rhs[0])
+			if !ok || len(comm.Rhs) != 1 {
+				r.fail(comm.Pos(), "unsupported select case")
+				return sel
+			}
+			c, v := r.name("c"), r.name("v")
+			pre = append(pre, define(c, r.rewriteExpr(u.X)), define(v, call(mc("ZeroOf"), c)), use(v))
+			var okArg ast.Expr = ast.NewIdent("nil")
+			rhs := []ast.Expr{v}
+			if len(comm.Lhs) == 2 {
+				okv := r.name("ok")
+				pre = append(pre, &ast.DeclStmt{Decl: &ast.GenDecl{Tok: token.VAR, Specs: []ast.Spec{&ast.ValueSpec{Names: []*ast.Ident{okv}, Type: ast.NewIdent("bool")}}}}, use(okv))
+				okArg = &ast.UnaryExpr{Op: token.AND, X: okv}
+				rhs = append(rhs, okv)
+			}
+			cases = append(cases, call(mc("RecvCase"), c, &ast.UnaryExpr{Op: token.AND, X: v}, okArg))
+			lhs := make([]ast.Expr, len(comm.Lhs))
+			for j := range comm.Lhs {
+				lhs[j] = r.rewriteExpr(comm.Lhs[j])
+			}
+			head = append(head, &ast.AssignStmt{Lhs: lhs, Tok: comm.Tok, Rhs: rhs})
+			if comm.Tok == token.DEFINE {
+				for _, l := range lhs {
+					if id, ok := l.(*ast.Ident); ok && id.Name != "_" {
+						head = append(head, use(id))
+					}
+				}
+			}
+		default:
+			r.fail(cc.Pos(), "unsupported select case")
+			return sel
+		}
+		body := make([]ast.Stmt, 0, len(head)+len(cc.Body))
+		body = append(body, head...)
+		for _, s := range cc.Body {
+			body = append(body, r.stmt(s))
+		}
+		clauses = append(clauses, &ast.CaseClause{List: []ast.Expr{&ast.BasicLit{Kind: token.INT, Value: strconv.Itoa(i)}}, Body: body})
+	}
+	// a select whose cases all terminate is a terminating statement; keep that property
+	clauses = append(clauses, &ast.CaseClause{Body: []ast.Stmt{&ast.ExprStmt{X: call(ast.NewIdent("panic"), strLit("zzmcrt: unreachable select outcome"))}}})
+	sw := &ast.SwitchStmt{Tag: call(mc("Select"), cases...), Body: &ast.BlockStmt{List: clauses}}
+	var swStmt ast.Stmt = sw
+	if label != nil {
+		swStmt = &ast.LabeledStmt{Label: label, Stmt: sw}
+	}
+	return &ast.BlockStmt{List: append(pre, swStmt)}
+}
+
+// SortedKeys is a helper for deterministic output in callers.
+func SortedKeys(m map[string]string) []string {
+	l := make([]string, 0, len(m))
+	for k := range m {
+		l = append(l, k)
+	}
+	sort.Strings(l)
+	return l
 }
